@@ -37,10 +37,10 @@ CLAIMED = {
          "Bounded symbolic check of the real string code against an abstract byte string: one harness per public operation from an ARBITRARY valid string object (capacity 0/8/16, any length <= capacity, contents symbolic incl. NUL and bytes >= 0x80, terminated or not): setm/setm_, catc, catn, cats, cat, getc, getn, setn, exit, swap, new/die/ctor/dtor, rtrim/ltrim/trim with explicit sets, cmp/cmpn, catv (formatter replaced by its ISO C contract over a ghost output, incl. the output that exactly fills the spare room and growth failure), a_utf_catc; ghost witness bytes for content, exactly sized blocks for memory safety, allocator model may fail at every request. Bounded (capacity/appended length), hence level 'other'.",
          "trusted: cbmc 6.11.0 (MiniSat/CaDiCaL), byte-loop memcpy/memmove/memchr models, cbmc's memcmp/strlen models, vsnprintf contract, allocator model",
          "contract-style Hoare triples per operation checked by CBMC on bounded strings", "5/C06"),
- "C05": ("other",
-         "Bounded symbolic check of the intrusive list, singly linked list and queue code against abstract sequences: every list primitive (add/del/set/mov/rot/swap families) on rings of <= 3 nodes per list with all positions and aliasing patterns, every slist operation with the tail invariant, every queue operation (push/pull/insert/remove at all indices, indexed access from both ends, element swap incl. adjacent elements, whole-queue swap, sort_fore/back, push_sort, drop, setz, new/die/dtor) on queues of <= 3 elements with a symbolic recycle pool; after each operation the ring is walked and compared with the abstract sequence incl. node addresses (elements stay where they are), back links are checked, a recycled node is shown not to be enqueued; allocator may fail at every request.",
-         "trusted: cbmc 6.11.0, allocator model; bounded ring/queue sizes (level 'other'); the primitives are loop-free so larger rings differ only outside the touched window (paper frame argument); known finding a_que_setz (listed)",
-         "contract-style Hoare triples per operation checked by CBMC on bounded linked structures", "5/C05"),
+ "C05": ("proof",
+         "UNBOUNDED: every intrusive-list primitive on an arbitrary heap (pool of 10 nodes with arbitrary links standing for a heap of any size): a_list_add_ and a_list_del_ proved against function contracts incl. frame (assigns clause), the add/del/set/mov/rot families proved with those two REPLACED by their contracts, the swap family over the bodies: from the consistent edges the documentation requires around the operands each primitive creates exactly the edges of the result and leaves every other link field of every node alone. BOUNDED: symbolic check of the intrusive list, singly linked list and queue code against abstract sequences: every list primitive (add/del/set/mov/rot/swap families) on rings of <= 3 nodes per list with all positions and aliasing patterns, every slist operation with the tail invariant, every queue operation (push/pull/insert/remove at all indices, indexed access from both ends, element swap incl. adjacent elements, whole-queue swap, sort_fore/back, push_sort, drop, setz, new/die/dtor) on queues of <= 3 elements with a symbolic recycle pool; after each operation the ring is walked and compared with the abstract sequence incl. node addresses (elements stay where they are), back links are checked, a recycled node is shown not to be enqueued; allocator may fail at every request.",
+         "trusted: cbmc 6.11.0, allocator model; queue and singly linked list units are bounded stand-ins (not counted as discharged); glue from edges to abstract ring sequences on paper, cross-checked by the bounded ring units; known finding a_que_setz (listed)",
+         "function contracts (DFCC enforce/replace) for the list primitives on an arbitrary heap + contract-style Hoare triples per operation on bounded linked structures", "5/C05"),
  "C07": ("other",
          "Fault enumeration inside the bounded per-operation checks of vector, buffer, queue and string: the allocator hook is a model that may fail at every request (symbolic fault schedule covers single faults at every position and failure from a position onward); on every failing path the operation must report failure and leave the container exactly as it was (retry = success case of the same triple); a ghost ledger proves that exactly the owned blocks are live after each operation and none after dtor/die.",
          "trusted: cbmc 6.11.0, allocator model; bounded container sizes; composition over histories on paper; known finding a_que_setz (listed)",
